@@ -50,13 +50,13 @@ class TimeActiveDecorator(TriggerHandlerDecorator, AutoKwargsDecorator):
 
             # all the specs are checked together: positive ones are or'ed, "not" ones exclude
             _LOGGER.debug("time_active specs %s now %s, %s", self.args, now, self)
-            if await trigger.TrigTime.timer_active_check(self.args, now, self.dm.startup_time):
-                self.last_trig_time = time.monotonic()
-                return True
-            return False
+            return await trigger.TrigTime.timer_active_check(self.args, now, self.dm.startup_time)
 
-        self.last_trig_time = time.monotonic()
         return True
+
+    async def handle_accepted(self, data: DispatchData) -> None:
+        """Remember the time of the last successful trigger for hold_off."""
+        self.last_trig_time = time.monotonic()
 
 
 class TimeTriggerDecorator(TriggerDecorator):
